@@ -214,6 +214,11 @@ _CMP = {
 
 def compare(I, op, l: Any, r: Any, st, lexpr=None, rexpr=None) -> list:
     """-> list of (bool, state), refining CharSet / IntSet operands read from variables."""
+    hook = I.probes.get("compare")
+    if hook is not None and isinstance(l, Opaque) and isinstance(r, Opaque):
+        hv = hook(I, op, l, r, st)
+        if isinstance(hv, bool):
+            return [(hv, st)]
     neg = isinstance(op, (ast.NotEq, ast.IsNot, ast.NotIn))
     if isinstance(op, (ast.Is, ast.IsNot, ast.Eq, ast.NotEq)):
         base = ast.Eq
@@ -1410,18 +1415,31 @@ def b_isinstance(I, args, kwargs, st, node):
     return _fork(st)
 
 
+def _extreme(I, args, kwargs, st, node, want_max: bool):
+    vals = list(args) if len(args) > 1 else iter_values(I, args[0], st)
+    if vals and all(isinstance(x, (int, str)) and not isinstance(x, bool) for x in vals) and not kwargs:
+        return [((max if want_max else min)(vals), st)]
+    hook = I.probes.get("compare")
+    if vals and hook is not None and not kwargs and all(isinstance(x, Opaque) for x in vals):
+        best = vals[0]
+        for x in vals[1:]:
+            gt = hook(I, ast.Gt(), x, best, st)
+            if not isinstance(gt, bool):
+                break
+            if gt == want_max:
+                best = x
+        else:
+            return [(best, st)]
+    st.note(f"{'max' if want_max else 'min'}() of abstract values")
+    return [(Unknown("max" if want_max else "min"), st)]
+
+
 def b_min(I, args, kwargs, st, node):
-    vals = args if len(args) > 1 else iter_values(I, args[0], st)
-    if vals and all(isinstance(x, (int, str)) for x in vals):
-        return [(min(vals), st)]
-    return [(Unknown("min"), st)]
+    return _extreme(I, args, kwargs, st, node, False)
 
 
 def b_max(I, args, kwargs, st, node):
-    vals = args if len(args) > 1 else iter_values(I, args[0], st)
-    if vals and all(isinstance(x, (int, str)) for x in vals):
-        return [(max(vals), st)]
-    return [(Unknown("max"), st)]
+    return _extreme(I, args, kwargs, st, node, True)
 
 
 def b_sum(I, args, kwargs, st, node):
